@@ -9,6 +9,8 @@ import OnlVerif.Kernel.Replay
 import OnlVerif.Net.Fifo
 import OnlVerif.Net.Port
 import OnlVerif.Net.FifoReplay
+import OnlVerif.Net.GenSink
+import OnlVerif.Net.GenSinkReplay
 -- property theorems (import Mathlib modules one by one)
 import OnlVerif.Props.C01
 import OnlVerif.Props.C02
@@ -17,4 +19,5 @@ import OnlVerif.Props.C04
 import OnlVerif.Props.C05
 import OnlVerif.Props.C06
 import OnlVerif.Props.C07
+import OnlVerif.Props.C08
 import OnlVerif.Props.C09
